@@ -669,8 +669,9 @@ def check_em_cleanup(rep, fl):
             e2 = in_parent_terms(facts, x, e) if x.is_closure else e
             for sub in subexprs(e2):
                 if sub[0] == "bin" and sub[1] == "Lt":
-                    sides = [norm(b.expand(sub[2])), norm(b.expand(sub[3]))]
-                    if cb_now in sides:
+                    # normal form: `bucket <= cb` is !(cb < bucket), `cb >= bucket` likewise: the cleanup bucket itself
+                    # is due. `bucket < cb` (cb on the right) leaves it for the next round: one more bucket width of delay
+                    if norm(b.expand(sub[2])) == cb_now:
                         cmp_ok = True
     if points and not scans:
         rep.bad("R05.5", fl, b, "due-set selection",
